@@ -209,29 +209,32 @@ def job_converge(seed):
     # checkConvergence: size_update 3, neigen 2
     tol = sp.Symbol('tol', positive=True)
     rns = [sp.Symbol('rn%d' % j, nonnegative=True) for j in range(4)]
-    P = rvc.Paths()
-    while True:
-        P.start()
-        rvc.CTX.base = [z3.Real('tol') > 0] + [z3.Real('rn%d' % j) >= 0 for j in range(4)]
-        proj = {'__class__': 'ProjectedSpace', 'size_update': 3, 'root_converged': rvc.BoolArr([False] * 3)}
-        rep = {'__class__': 'RitzEigenPair'}
-        this = {'__class__': 'DavidsonSolver', 'tol_': D(tol)}
-        cb = dict(LOGCB); cb.update({'decide': P.decide, 'res_norm': lambda r_: Mx(1, 4, [[D(x) for x in rns]])})
-        ex = Exec({'rep': rep, 'proj': proj, 'neigen': 2}, cb, fns, this)
-        try:
-            ex.stmt(rvc.body_of(fns['checkConvergence'][0])); ret = None
-        except Ret as r:
-            ret = r.v
-        val = ex.truth(ret)
-        rc = proj['root_converged']
-        t = 'p%d' % P.count
-        flags_ok = isinstance(rc, rvc.BoolArr) and len(rc) == 3 and all(str(rc[j]) == str(sp.Lt(rns[j], tol)) for j in range(3))
-        o = ob(obs, 'C09.converge/%s/flags' % t, 'checkConvergence', 'root j (j < update size) is flagged converged exactly when its residual norm is below the tolerance', flags_ok, str(rc), bound='update size 3, 2 requested roots')
-        claim = z3.And(z3.Real('rn0') < z3.Real('tol'), z3.Real('rn1') < z3.Real('tol'))
-        o = rvc.logic('C09.converge/%s/all-requested' % t, 'DavidsonSolver::checkConvergence', 'returns true exactly when every REQUESTED root (the first neigen) has residual norm below the tolerance', claim if val else z3.Not(claim), pc=P.pc, bound='update size 3, 2 requested roots')
-        obs.append(o)
-        if not P.next():
-            break
+    for prior in itertools.product((False, True), repeat=3):          # the flags of the previous iteration are arbitrary: a flag must not outlive its iteration
+        pt = ''.join('c' if f else 'n' for f in prior)
+        P = rvc.Paths()
+        while True:
+            P.start()
+            rvc.CTX.base = [z3.Real('tol') > 0] + [z3.Real('rn%d' % j) >= 0 for j in range(4)]
+            proj = {'__class__': 'ProjectedSpace', 'size_update': 3, 'root_converged': rvc.BoolArr(list(prior))}
+            rep = {'__class__': 'RitzEigenPair'}
+            this = {'__class__': 'DavidsonSolver', 'tol_': D(tol)}
+            cb = dict(LOGCB); cb.update({'decide': P.decide, 'res_norm': lambda r_: Mx(1, 4, [[D(x) for x in rns]])})
+            ex = Exec({'rep': rep, 'proj': proj, 'neigen': 2}, cb, fns, this)
+            try:
+                ex.stmt(rvc.body_of(fns['checkConvergence'][0])); ret = None
+            except Ret as r:
+                ret = r.v
+            val = ex.truth(ret)
+            rc = proj['root_converged']
+            t = 'prior-%s.p%d' % (pt, P.count)
+            flags_ok = isinstance(rc, rvc.BoolArr) and len(rc) == 3 and all(str(rc[j]) == str(sp.Lt(rns[j], tol)) for j in range(3))
+            ob(obs, 'C09.converge/%s/flags' % t, 'checkConvergence', 'root j (j < update size) is flagged converged exactly when its residual norm of THIS iteration is below the tolerance, whatever the flags of the previous iteration were (positions in the sorted Ritz spectrum can change between iterations)',
+               flags_ok, str(rc), bound='update size 3, 2 requested roots', wit={'previous_flags': pt, 'flags': str(rc)})
+            claim = z3.And(z3.Real('rn0') < z3.Real('tol'), z3.Real('rn1') < z3.Real('tol'))
+            o = rvc.logic('C09.converge/%s/all-requested' % t, 'DavidsonSolver::checkConvergence', 'returns true exactly when every REQUESTED root (the first neigen) has residual norm below the tolerance', claim if val else z3.Not(claim), pc=P.pc, bound='update size 3, 2 requested roots')
+            obs.append(o)
+            if not P.next():
+                break
     for o in obs:
         o.setdefault('functions', mf(fns, ['checkConvergence', 'res_norm']))
     # store*
